@@ -19,7 +19,35 @@ func init() {
 		Note:      trusted,
 		DesignRef: "DESIGN.md §3 ET, §4 C07",
 	})
-	for _, id := range []string{"C01", "C02", "C03", "C04", "C05", "C06", "C08", "C09", "C10", "C11", "C12", "C13", "C15", "C16", "C17", "C18", "C19"} {
+	property(&Property{
+		ID:    "C05",
+		Rules: []string{"SA-J", "SA-JT", "SA-J3", "SA-JT3"},
+		Explain: "The transition relation of the formats/json scanner is extracted from its own Next() method by abstract interpretation of the SSA (scanner object tracked exactly, one input byte at a time, positions symbolic) and compared, by breadth-first product construction, with a reference RFC 8259 byte transducer: in every reachable state pair up to the nesting bound (2 quick, 4 thorough), for each of the 256 byte values and for end of input, the scanner rejects iff the reference rejects, accepts end of input iff the reference does (including the empty-document rule of Document.check), in strict mode and with AllowTrailingNonSpaceCharacters. Literal tokens (strings, numbers, true/false/null) are unbounded in length: their automaton states are merged, so the token language is decided for all lengths.",
+		Assume: []string{
+			"nesting deeper than the bound is not explored (the scanner inspects only the top two stack entries)",
+			"the glue in Document.check/nextLexeme (recover, EndTop => EOF, zero lexemes => ErrEmptyJson) is modelled in the driver as read on the pinned tree; a change there is outside this rule",
+			"bytes >= 0x80 inside strings are accepted without UTF-8 validation by both sides (the property names only control bytes)",
+		},
+		Technique: "static analysis: finite-domain abstract interpretation of go/ssa (scanner automaton extraction) + product construction with an RFC 8259 reference automaton",
+		Level:     "Language equivalence between the automaton extracted from the scanner's source and a reference RFC 8259 transducer, exhaustive over all 256 byte values and end of input in every reachable abstract state up to the nesting bound. A structural necessary condition decided completely within the bound; not a run of the library.",
+		Note:      trusted,
+		DesignRef: "DESIGN.md §3 SA, §4 C05",
+	})
+	property(&Property{
+		ID:    "C06",
+		Rules: []string{"SA-J", "SA-S", "SA-E", "SA-J3"},
+		Explain: "Same product as C05, comparing in addition the lexical events: on every byte and at end of input the formats/json scanner model must emit exactly the events of the reference transducer (types, order, and spans written relative to the consumed byte and to the begin offsets of the open events): literal/key spans = the source token, container spans from opening to closing bracket, wrappers closed on the first byte after the value. SA-S / SA-E run the same product against the schema scanner and the enum-rule scanner restricted to plain JSON input: every byte the reference accepts must be accepted with the same events (new-line events dropped; exponents, and for enum rules non-array roots and nested containers, are documented deviations; duplicate detection of the enum scanner abstracted).",
+		Assume: []string{
+			"rebuilding the JSON value from the events is not decided (content is symbolic)",
+			"nesting beyond the bound not explored",
+			"field names index/dataSize/data/stack of the scanner structs are anchors of the model",
+		},
+		Technique: "static analysis: scanner automaton extraction by abstract interpretation of go/ssa + product with a reference event transducer; sibling cross-check of the three cloned scanners",
+		Level:     "Equality of emitted event sequences and symbolic spans between the extracted scanner models and a reference transducer, exhaustive over bytes/states up to the nesting bound; the three scanner clones are cross-checked through the same reference.",
+		Note:      trusted,
+		DesignRef: "DESIGN.md §3 SA, §4 C06",
+	})
+	for _, id := range []string{"C01", "C02", "C03", "C04", "C08", "C09", "C10", "C11", "C12", "C13", "C15", "C16", "C17", "C18", "C19"} {
 		NotApplicable[id] = "engine for this property's structural clauses not finished yet (see DESIGN.md §4); not claimed until its rules run"
 	}
 	NotApplicable["C14"] = "an arithmetic relation between a returned length and acceptance of a prefix over all inputs; no clause has a structural form that is a genuine necessary condition and survives behaviour-preserving edits (DESIGN.md §4 C14)"
